@@ -594,8 +594,12 @@ class _QueryMessage(_MessageType):
 
         if ProtocolVersion.uses_int_query_flags(protocol_version):
             write_uint(f, flags)
-        else:
+        elif protocol_version >= 2:
             write_byte(f, flags)
+        elif flags:
+            # a protocol v1 QUERY is just <query><consistency>: it has no flags byte
+            raise UnsupportedOperation(
+                "Query parameters require the use of protocol version 2 or higher.")
 
         if self.query_params is not None:
             write_short(f, len(self.query_params))
